@@ -30,6 +30,9 @@ pub enum Scen {
     /// only new / forget of three ids and restarts (no funding, no blocks): the order in which
     /// ids are forgotten and recreated
     Ids,
+    /// channel 1 open, funding and mutual close confirmed, 98 further blocks, forget requested:
+    /// two more blocks and a heartbeat prune it
+    Prunable,
 }
 
 #[derive(Clone, Debug, Serialize, Deserialize)]
@@ -40,6 +43,9 @@ pub struct NodeCfg {
     /// over the transactional cloud store
     #[serde(default)]
     pub cloud: bool,
+    /// channels get a permanent id that differs from the original one
+    #[serde(default)]
+    pub perm: bool,
 }
 
 #[derive(Clone, Copy, Debug, PartialEq, Eq, Hash, PartialOrd, Ord, Serialize, Deserialize)]
@@ -116,10 +122,11 @@ impl NState {
     }
 }
 
-fn wcfg(cloud: bool) -> WorldCfg {
+fn wcfg(cloud: bool, perm: bool) -> WorldCfg {
     let mut c = WorldCfg::default();
     c.oracle_pubkeys = vec![oracle_pub(0)];
     c.cloud = cloud;
+    c.permanent_ids = perm;
     c
 }
 
@@ -134,21 +141,21 @@ impl NodeModel {
         }
         match t {
             Tx::Fund => {
-                if spent(&f.wallet_in) || matches!(self.cfg.scen, Scen::Mutual | Scen::Unilateral | Scen::Swept) {
+                if spent(&f.wallet_in) || matches!(self.cfg.scen, Scen::Mutual | Scen::Unilateral | Scen::Swept | Scen::Prunable) {
                     None
                 } else {
                     Some(f.funding_tx.clone())
                 }
             }
             Tx::DoubleSpend => {
-                if spent(&f.wallet_in) || matches!(self.cfg.scen, Scen::Mutual | Scen::Unilateral | Scen::Swept) {
+                if spent(&f.wallet_in) || matches!(self.cfg.scen, Scen::Mutual | Scen::Unilateral | Scen::Swept | Scen::Prunable) {
                     None
                 } else {
                     Some(simple_tx(vec![f.wallet_in], vec![(CHANNEL_VALUE, unrelated_script(1))], 7))
                 }
             }
             Tx::Mutual => {
-                let funded = get(Tx::Fund).is_some() || matches!(self.cfg.scen, Scen::Unilateral | Scen::Mutual | Scen::Swept);
+                let funded = get(Tx::Fund).is_some() || matches!(self.cfg.scen, Scen::Unilateral | Scen::Mutual | Scen::Swept | Scen::Prunable);
                 if !funded || spent(&f.setup.funding_outpoint) || matches!(self.cfg.scen, Scen::Unilateral | Scen::Swept) {
                     return None;
                 }
@@ -280,15 +287,15 @@ impl Model for NodeModel {
     }
 
     fn init(&self) -> NState {
-        let w = World::new(wcfg(self.cfg.cloud));
+        let w = World::new(wcfg(self.cfg.cloud, self.cfg.perm));
         let mut chain = w.new_sim_chain();
         let b = make_block(&chain.tip().0, chain.height() + 1, 0, vec![]);
         assert!(w.connect(&mut chain, b, Delivery::Compact).is_ok());
         let mut s = NState { w: Some(w), f: None, chain: SimChain::new(chain.tip(), chain.height()), names: vec![], ghost: Ghost::default(), dead: false, nops: 0 };
-        if matches!(self.cfg.scen, Scen::Mutual | Scen::DoubleSpend) {
+        if matches!(self.cfg.scen, Scen::Mutual | Scen::DoubleSpend | Scen::Prunable) {
             let f = fund_channel(s.w(), 1, false, false);
             s.ghost.ready.insert(1, true);
-            if self.cfg.scen == Scen::Mutual {
+            if matches!(self.cfg.scen, Scen::Mutual | Scen::Prunable) {
                 let mut chain = chain.clone();
                 let b = make_block(&chain.tip().0, chain.height() + 1, 0, vec![f.funding_tx.clone()]);
                 assert!(s.w().connect(&mut chain, b, Delivery::Compact).is_ok());
@@ -313,6 +320,18 @@ impl Model for NodeModel {
                     assert!(r.is_ok(), "scenario block {:?}: {}", t, r.tag());
                 }
             }
+        }
+        if self.cfg.scen == Scen::Prunable {
+            let r = self.connect_block(&mut s, &[Tx::Mutual], 60);
+            assert!(r.is_ok(), "scenario block (mutual close): {}", r.tag());
+            for i in 0..98u32 {
+                let r = self.connect_block(&mut s, &[], 100 + i);
+                assert!(r.is_ok(), "scenario block: {}", r.tag());
+            }
+            let r = s.w().forget_channel(1);
+            assert!(r.is_ok(), "scenario forget: {}", r.tag());
+            s.ghost.forget_requested.insert(1, true);
+            s.ghost.hwm = 1;
         }
         // everything the scenario did so far is one committed transaction
         s.w().end_request();
@@ -364,6 +383,10 @@ impl Model for NodeModel {
                 }
             }
             Scen::Ids => {}
+            Scen::Prunable => {
+                v.push(Op::Forget(1));
+                v.push(Op::New(1));
+            }
             Scen::Unilateral | Scen::Swept => {
                 v.push(Op::Forget(1));
                 v.push(Op::New(1));
@@ -567,8 +590,8 @@ pub struct NodeRun {
 pub fn configs(tier: Tier, monitors: bool) -> Vec<NodeCfg> {
     let mut v = configs_plain(tier, monitors);
     if monitors && tier == Tier::Thorough {
-        v.push(NodeCfg { scen: Scen::Lifecycle, max_ops: 5, monitors, cloud: true });
-        v.push(NodeCfg { scen: Scen::Mutual, max_ops: 5, monitors, cloud: true });
+        v.push(NodeCfg { scen: Scen::Lifecycle, max_ops: 5, monitors, cloud: true, perm: false });
+        v.push(NodeCfg { scen: Scen::Mutual, max_ops: 5, monitors, cloud: true, perm: false });
     }
     v
 }
@@ -576,24 +599,25 @@ pub fn configs(tier: Tier, monitors: bool) -> Vec<NodeCfg> {
 fn configs_plain(tier: Tier, monitors: bool) -> Vec<NodeCfg> {
     match (tier, monitors) {
         (Tier::Quick, false) => vec![
-            NodeCfg { scen: Scen::Mutual, max_ops: 5, monitors, cloud: false },
-            NodeCfg { scen: Scen::DoubleSpend, max_ops: 5, monitors, cloud: false },
-            NodeCfg { scen: Scen::Lifecycle, max_ops: 4, monitors, cloud: false },
-            NodeCfg { scen: Scen::Ids, max_ops: 6, monitors, cloud: false },
-            NodeCfg { scen: Scen::Swept, max_ops: 5, monitors, cloud: false },
+            NodeCfg { scen: Scen::Mutual, max_ops: 5, monitors, cloud: false, perm: false },
+            NodeCfg { scen: Scen::DoubleSpend, max_ops: 5, monitors, cloud: false, perm: false },
+            NodeCfg { scen: Scen::Lifecycle, max_ops: 4, monitors, cloud: false, perm: false },
+            NodeCfg { scen: Scen::Ids, max_ops: 6, monitors, cloud: false, perm: false },
+            NodeCfg { scen: Scen::Swept, max_ops: 5, monitors, cloud: false, perm: false },
         ],
         (Tier::Quick, true) => vec![
-            NodeCfg { scen: Scen::Lifecycle, max_ops: 4, monitors, cloud: false },
-            NodeCfg { scen: Scen::Mutual, max_ops: 3, monitors, cloud: false },
-            NodeCfg { scen: Scen::Lifecycle, max_ops: 3, monitors, cloud: true },
+            NodeCfg { scen: Scen::Lifecycle, max_ops: 4, monitors, cloud: false, perm: false },
+            NodeCfg { scen: Scen::Mutual, max_ops: 3, monitors, cloud: false, perm: false },
+            NodeCfg { scen: Scen::Lifecycle, max_ops: 3, monitors, cloud: true, perm: false },
+            NodeCfg { scen: Scen::Prunable, max_ops: 3, monitors, cloud: false, perm: true },
         ],
         (Tier::Thorough, _) => vec![
-            NodeCfg { scen: Scen::Lifecycle, max_ops: 7, monitors, cloud: false },
-            NodeCfg { scen: Scen::Mutual, max_ops: 7, monitors, cloud: false },
-            NodeCfg { scen: Scen::DoubleSpend, max_ops: 7, monitors, cloud: false },
-            NodeCfg { scen: Scen::Unilateral, max_ops: 7, monitors, cloud: false },
-            NodeCfg { scen: Scen::Swept, max_ops: 6, monitors, cloud: false },
-            NodeCfg { scen: Scen::Ids, max_ops: 8, monitors, cloud: false },
+            NodeCfg { scen: Scen::Lifecycle, max_ops: 7, monitors, cloud: false, perm: false },
+            NodeCfg { scen: Scen::Mutual, max_ops: 7, monitors, cloud: false, perm: false },
+            NodeCfg { scen: Scen::DoubleSpend, max_ops: 7, monitors, cloud: false, perm: false },
+            NodeCfg { scen: Scen::Unilateral, max_ops: 7, monitors, cloud: false, perm: false },
+            NodeCfg { scen: Scen::Swept, max_ops: 6, monitors, cloud: false, perm: false },
+            NodeCfg { scen: Scen::Ids, max_ops: 8, monitors, cloud: false, perm: false },
         ],
     }
 }
